@@ -103,7 +103,7 @@ let () =
           incr ncases; case := k ^ ":" ^ kind; model := []; Hashtbl.reset impl_nb; Hashtbl.reset impl_ent;
           clean := true; reset_rounds ();
           Hashtbl.reset tbl_of_dec; Hashtbl.reset tbl_to_dec
-      | ["node"; a; h] -> node_alias a (n_of_dec_raw h)
+      | "node" :: a :: h :: _ -> node_alias a (n_of_dec_raw h)
       | ["ev"; "rup"; i] -> apply (RouterUp (n_of_dec i)) true
       | ["ev"; "rdown"; i] ->
           let i = n_of_dec i in
